@@ -107,7 +107,7 @@ def run_case(case):
         kind = "mv_rmv"
     batchclass = "b%d%d%d%d" % (len(case["bA"]), len(case["bB"]), len(case["bE"]) if PE is not None else 0, len(case["bM"]) if PM is not None else 0)
     labels = ["method=" + method, "bck=" + bck, "emode=" + em, "kind=" + kind, "dtype=" + case["dtype"], "spec=" + case["spec"],
-              "batch=" + batchclass, "order=%d" % case["order"], "zero=" + case["zero"], "extra=%s" % case["extra"], "nonlin=%s" % (bool(case.get("nonlin")) and case["kind"] in R.METHODSETS)]
+              "batch=" + batchclass, "order=%d" % case["order"], "zero=" + case["zero"], "extra=%s" % case["extra"], "nonlin=%s" % (bool(case.get("nonlin")) and case["kind"] in R.METHODSETS), "reuse=%s" % bool(case.get("reuse"))]
     if not leaves:
         return discard("nothing_requires_grad", labels)
 
@@ -145,6 +145,13 @@ def run_case(case):
 
     with warnings.catch_warnings(record=True) as wlist:
         warnings.simplefilter("always")
+        if case.get("reuse"):
+            # history on one operator object: an earlier solve differentiated by a plain (non-recorded) backward must not
+            # influence a later recorded one (e.g. through state cached on the operator in another autograd mode)
+            Xp = xt_call(solve, Aop, PB, PE, Mop, method=method, bck_options=bopts, _where="forward", **fopts)
+            if Xp.requires_grad:
+                xt_call(torch.autograd.grad, rdot(gen.randn(g, Xp.shape, dt), Xp), leaves, retain_graph=True, allow_unused=True, _where="backward")
+            del Xp
         X = xt_call(solve, Aop, PB, PE, Mop, method=method, bck_options=bopts, _where="forward", **fopts)
         W = gen.randn(g, X.shape, dt)
         loss = rdot(W, X)
@@ -247,7 +254,7 @@ def case_st(draw, tier="quick"):
         "mkind": draw(st.sampled_from(["dense", "mv", "all"])), "hflag": draw(st.sampled_from([True, True, False])),
         "method": method, "bck": bck, "emode": draw(st.sampled_from(["none", "E", "E", "EM", "EM", "EM", "M"])),
         "ecomplex": draw(st.booleans()), "req": req, "order": draw(st.sampled_from([1, 1, 2])),
-        "zero": draw(st.sampled_from(["none"] * 6 + ["some", "all"])), "extra": draw(st.sampled_from([False, False, True])), "nonlin": draw(st.sampled_from([False, True])),
+        "zero": draw(st.sampled_from(["none"] * 6 + ["some", "all"])), "extra": draw(st.sampled_from([False, False, True])), "nonlin": draw(st.sampled_from([False, True])), "reuse": draw(st.sampled_from([False, False, True])),
         "seed": draw(st.integers(0, 2 ** 31 - 1)),
     }
 
